@@ -1,4 +1,5 @@
 use either::Either;
+use std::convert::TryFrom;
 use std::{
     cell::RefCell,
     cell::RefMut,
@@ -50,11 +51,38 @@ impl<R: RealNumberInternalTrait> Display for Number<R> {
     }
 }
 
+fn gcd(mut a: i128, mut b: i128) -> i128 {
+    while b != 0 {
+        let t = a % b;
+        a = b;
+        b = t;
+    }
+    a.abs()
+}
+
 impl<R: RealNumberInternalTrait> Number<R> {
+    // The exact number n/d in lowest terms with a positive denominator (an
+    // integer when the denominator is 1); None when d is zero or the reduced
+    // numerator or denominator does not fit the exact representation.
+    pub(crate) fn exact_ratio(n: i128, d: i128) -> Option<Self> {
+        if d == 0 {
+            return None;
+        }
+        let (n, d) = if d < 0 { (-n, -d) } else { (n, d) };
+        let g = gcd(n, d);
+        match (i32::try_from(n / g), i32::try_from(d / g)) {
+            (Ok(n), Ok(1)) => Some(Number::Integer(n)),
+            (Ok(n), Ok(d)) => Some(Number::Rational(n, d)),
+            _ => None,
+        }
+    }
+
     pub(crate) fn exact_eqv(&self, other: &Self) -> bool {
         match (self, other) {
             (Number::Integer(a), Number::Integer(b)) => a.eq(b),
-            (Number::Rational(a1, b1), Number::Rational(a2, b2)) => (a1 * b2).eq(&(b1 * a2)),
+            (Number::Rational(a1, b1), Number::Rational(a2, b2)) => {
+                (*a1 as i128 * *b2 as i128).eq(&(*b1 as i128 * *a2 as i128))
+            }
             (Number::Real(a), Number::Real(b)) => a.eq(b),
             _ => false,
         }
@@ -66,7 +94,9 @@ impl<R: RealNumberInternalTrait> PartialEq for Number<R> {
     fn eq(&self, other: &Number<R>) -> bool {
         match upcast_oprands((*self, *other)) {
             NumberBinaryOperand::Integer(a, b) => a.eq(&b),
-            NumberBinaryOperand::Rational(a1, a2, b1, b2) => (a1 * b2).eq(&(b1 * a2)),
+            NumberBinaryOperand::Rational(a1, a2, b1, b2) => {
+                (a1 as i128 * b2 as i128).eq(&(b1 as i128 * a2 as i128))
+            }
             NumberBinaryOperand::Real(a, b) => a.eq(&b),
         }
     }
@@ -76,7 +106,11 @@ impl<R: RealNumberInternalTrait> PartialOrd for Number<R> {
     fn partial_cmp(&self, other: &Number<R>) -> Option<Ordering> {
         match upcast_oprands((*self, *other)) {
             NumberBinaryOperand::Integer(a, b) => a.partial_cmp(&b),
-            NumberBinaryOperand::Rational(a1, a2, b1, b2) => (a1 * b2).partial_cmp(&(b1 * a2)),
+            NumberBinaryOperand::Rational(a1, a2, b1, b2) => {
+                // cross-multiplication keeps the order only for a positive a2 * b2
+                let sign = (a2 as i128 * b2 as i128).signum();
+                (a1 as i128 * b2 as i128 * sign).partial_cmp(&(b1 as i128 * a2 as i128 * sign))
+            }
             NumberBinaryOperand::Real(a, b) => a.partial_cmp(&b),
         }
     }
@@ -120,7 +154,10 @@ impl<R: RealNumberInternalTrait> NumberBinaryOperand<R> {
         match self {
             NumberBinaryOperand::Integer(a, _) => Number::Integer(*a),
             NumberBinaryOperand::Real(a, _) => Number::Real(*a),
-            NumberBinaryOperand::Rational(a1, a2, _, _) => Number::Rational(*a1, *a2),
+            NumberBinaryOperand::Rational(a1, a2, _, _) => {
+                Number::exact_ratio(*a1 as i128, *a2 as i128)
+                    .unwrap_or(Number::Rational(*a1, *a2))
+            }
         }
     }
 
@@ -128,7 +165,10 @@ impl<R: RealNumberInternalTrait> NumberBinaryOperand<R> {
         match self {
             NumberBinaryOperand::Integer(_, b) => Number::Integer(*b),
             NumberBinaryOperand::Real(_, b) => Number::Real(*b),
-            NumberBinaryOperand::Rational(_, _, b1, b2) => Number::Rational(*b1, *b2),
+            NumberBinaryOperand::Rational(_, _, b1, b2) => {
+                Number::exact_ratio(*b1 as i128, *b2 as i128)
+                    .unwrap_or(Number::Rational(*b1, *b2))
+            }
         }
     }
 }
@@ -137,12 +177,15 @@ impl<R: RealNumberInternalTrait> std::ops::Add<Number<R>> for Number<R> {
     type Output = Number<R>;
     fn add(self, rhs: Number<R>) -> Number<R> {
         match upcast_oprands((self, rhs)) {
-            NumberBinaryOperand::Integer(a, b) => Number::Integer(a + b),
-            NumberBinaryOperand::Real(a, b) => Number::Real(a + b),
-            NumberBinaryOperand::Rational(a1, a2, b1, b2) => {
-                Number::Rational(a1 * b2 + a2 * b1, a2 * b2)
-            }
+            NumberBinaryOperand::Integer(a, b) => Number::exact_ratio(a as i128 + b as i128, 1),
+            NumberBinaryOperand::Real(a, b) => Some(Number::Real(a + b)),
+            NumberBinaryOperand::Rational(a1, a2, b1, b2) => Number::exact_ratio(
+                a1 as i128 * b2 as i128 + a2 as i128 * b1 as i128,
+                a2 as i128 * b2 as i128,
+            ),
         }
+        // an exact result that cannot be represented becomes inexact
+        .unwrap_or_else(|| Number::Real(self.as_real() + rhs.as_real()))
     }
 }
 
@@ -150,12 +193,14 @@ impl<R: RealNumberInternalTrait> std::ops::Sub<Number<R>> for Number<R> {
     type Output = Number<R>;
     fn sub(self, rhs: Number<R>) -> Number<R> {
         match upcast_oprands((self, rhs)) {
-            NumberBinaryOperand::Integer(a, b) => Number::Integer(a - b),
-            NumberBinaryOperand::Real(a, b) => Number::Real(a - b),
-            NumberBinaryOperand::Rational(a1, a2, b1, b2) => {
-                Number::Rational(a1 * b2 - a2 * b1, a2 * b2)
-            }
+            NumberBinaryOperand::Integer(a, b) => Number::exact_ratio(a as i128 - b as i128, 1),
+            NumberBinaryOperand::Real(a, b) => Some(Number::Real(a - b)),
+            NumberBinaryOperand::Rational(a1, a2, b1, b2) => Number::exact_ratio(
+                a1 as i128 * b2 as i128 - a2 as i128 * b1 as i128,
+                a2 as i128 * b2 as i128,
+            ),
         }
+        .unwrap_or_else(|| Number::Real(self.as_real() - rhs.as_real()))
     }
 }
 
@@ -163,42 +208,44 @@ impl<R: RealNumberInternalTrait> std::ops::Mul<Number<R>> for Number<R> {
     type Output = Number<R>;
     fn mul(self, rhs: Number<R>) -> Number<R> {
         match upcast_oprands((self, rhs)) {
-            NumberBinaryOperand::Integer(a, b) => Number::Integer(a * b),
-            NumberBinaryOperand::Real(a, b) => Number::Real(a * b),
-            NumberBinaryOperand::Rational(a1, a2, b1, b2) => Number::Rational(a1 * b1, a2 * b2),
+            NumberBinaryOperand::Integer(a, b) => Number::exact_ratio(a as i128 * b as i128, 1),
+            NumberBinaryOperand::Real(a, b) => Some(Number::Real(a * b)),
+            NumberBinaryOperand::Rational(a1, a2, b1, b2) => {
+                Number::exact_ratio(a1 as i128 * b1 as i128, a2 as i128 * b2 as i128)
+            }
         }
+        .unwrap_or_else(|| Number::Real(self.as_real() * rhs.as_real()))
     }
 }
 
 impl<R: RealNumberInternalTrait> std::ops::Div<Number<R>> for Number<R> {
     type Output = Result<Number<R>>;
     fn div(self, rhs: Number<R>) -> Self::Output {
-        match upcast_oprands((self, rhs)) {
+        Ok(match upcast_oprands((self, rhs)) {
             NumberBinaryOperand::Integer(a, b) => {
                 check_division_by_zero(b)?;
-                match a % b {
-                    0 => Ok(Number::Integer(a / b)),
-                    _ => Ok(Number::Rational(a, b)),
-                }
+                Number::exact_ratio(a as i128, b as i128)
             }
-            NumberBinaryOperand::Real(a, b) => Ok(Number::Real(a / b)),
+            NumberBinaryOperand::Real(a, b) => Some(Number::Real(a / b)),
             NumberBinaryOperand::Rational(a1, a2, b1, b2) => {
                 check_division_by_zero(b1)?;
                 check_division_by_zero(a2)?;
                 check_division_by_zero(b2)?;
-                Ok(Number::Rational(a1 * b2, a2 * b1))
+                Number::exact_ratio(a1 as i128 * b2 as i128, a2 as i128 * b1 as i128)
             }
         }
+        .unwrap_or_else(|| Number::Real(self.as_real() / rhs.as_real())))
     }
 }
 
 impl<R: RealNumberInternalTrait> Number<R> {
     pub fn abs(self) -> Number<R> {
         match self {
-            Number::Integer(num) => Number::Integer(num.abs()),
-            Number::Real(num) => Number::Real(num.abs()),
-            Number::Rational(a, b) => Number::Rational(a.abs(), b.abs()),
+            Number::Integer(num) => Number::exact_ratio((num as i128).abs(), 1),
+            Number::Real(num) => Some(Number::Real(num.abs())),
+            Number::Rational(a, b) => Number::exact_ratio((a as i128).abs(), (b as i128).abs()),
         }
+        .unwrap_or_else(|| Number::Real(self.as_real().abs()))
     }
 
     fn as_real(self) -> R {
@@ -257,14 +304,12 @@ impl<R: RealNumberInternalTrait> Number<R> {
         match self {
             Number::Integer(num) => Number::Integer(num),
             Number::Real(num) => Number::Real(num.floor()),
-            Number::Rational(a, b) => Number::Integer({
-                let quot = a / b;
-                if quot >= 0 || quot * b == a {
-                    quot
-                } else {
-                    quot - 1
-                }
-            }),
+            Number::Rational(a, b) if b != 0 => {
+                let sign = (b as i128).signum();
+                Number::exact_ratio((a as i128 * sign).div_euclid(b as i128 * sign), 1)
+                    .unwrap_or_else(|| Number::Real(self.as_real().floor()))
+            }
+            Number::Rational(..) => Number::Real(self.as_real().floor()),
         }
     }
 
@@ -272,14 +317,12 @@ impl<R: RealNumberInternalTrait> Number<R> {
         match self {
             Number::Integer(num) => Number::Integer(num),
             Number::Real(num) => Number::Real(num.ceil()),
-            Number::Rational(a, b) => Number::Integer({
-                let quot = a / b;
-                if quot <= 0 || quot * b == a {
-                    quot
-                } else {
-                    quot + 1
-                }
-            }),
+            Number::Rational(a, b) if b != 0 => {
+                let sign = (b as i128).signum();
+                Number::exact_ratio(-(-(a as i128 * sign)).div_euclid(b as i128 * sign), 1)
+                    .unwrap_or_else(|| Number::Real(self.as_real().ceil()))
+            }
+            Number::Rational(..) => Number::Real(self.as_real().ceil()),
         }
     }
 
